@@ -282,6 +282,19 @@ Proof.
         destruct (run_subshell n stk (LCons a LNil) s) as [child|] eqn:Es; [|apply good_none].
         pose proof (Isub _ _ _ _ Es Hpl F) as Hcount.
         apply good_ret; [|intros o; discriminate]. split; [reflexivity | exact Hcount | exact F].
+      * (* x=w NAME ARGS *)
+        destruct (expand_word w s);
+          [|apply good_ret; [apply keep_refl; exact F | apply not_abort_expansion]].
+        destruct (is_ronly x s);
+          [apply good_ret; [apply keep_refl; exact F | apply not_abort_expansion]|].
+        assert (F0 : funs_plain (set_var x (hd_error l) s)) by exact F.
+        assert (Hp0 : plain_cmd k (CCall plain nm args) = true) by exact Hp.
+        specialize (Icmd stk (CCall plain nm args) _ Hp0 F0).
+        destruct (exec_cmd n stk (CCall plain nm args) (set_var x (hd_error l) s)) as [[r1 s1]|];
+          [|apply good_none].
+        destruct (Icmd _ _ eq_refl) as [[Kt Kc Kf] A].
+        apply good_ret; [|exact A].
+        destruct (is_special nm); split; auto.
       * (* call *)
         assert (Hfin : forall (o : option res), good s o ->
                   good s (match o with
